@@ -114,7 +114,10 @@ class DataType:
                 return self
             return DataType(self.kind, nullable=True)
 
-        vtype = type(value)
+        # Classify the value exactly as inference does (instances of subclasses
+        # of built-in types count as their base kind), so that promotion and
+        # inference agree whatever the element order.
+        vtype = infer_kind(value)
 
         # Case 2: Exact match
         if vtype is self.kind:
